@@ -127,7 +127,9 @@ def run(tier):
     lenmap = {}
     for L, r in zip(sorted(LINES), res):
         if "crash" in r or r["rc"] != 0:
-            raise common.HarnessError("payload line %r not accepted" % LINES[L])
+            # the library does not even assemble a plain valid line on an ample buffer: nothing about containment can be evaluated
+            v.violation({"key": "payload line %r" % LINES[L], "fam": "precondition", "text": LINES[L]}, r["crash"]["sig"] if "crash" in r else "precondition:valid-line-rejected", None)
+            return v.finish()
         lenmap[L] = len(r["bytes"]) // 2
     T = templates()
     jobs = []  # (binary tag, n, place, hist, origin)
